@@ -77,6 +77,20 @@ def cases(tier, rng):
                     "feed b " + W.tok(W.msg([b"two"])), "recv", "send %s;796f" % ident, "wire a", "wire b"]
             out.append("j%d sock ROUTER / %s" % (k, " / ".join(ops)))
             k += 1
+    # peers whose READY carries an Identity property that is present but EMPTY (what libzmq sends by default):
+    # each must get its own generated identity
+    for n in (2, 3):
+        for pt in ("DEALER", "REQ"):
+            cs = "abc"[:n]
+            ops = ["attach %s %s id=-" % (c, pt) for c in cs]
+            for c in cs:
+                body = [b"from-" + c.encode()] if pt == "DEALER" else [b"", b"from-" + c.encode()]
+                ops.append("feed %s %s" % (c, W.tok(W.msg(body))))
+            ops += ["recv"] * (n + 1)
+            for c in cs:
+                ops += ["send @%s;746f2d%02x" % (c, ord(c))] + ["wire " + x for x in cs]
+            out.append("e%d sock ROUTER / %s" % (k, " / ".join(ops)))
+            k += 1
     return out
 
 
@@ -123,8 +137,8 @@ def judge(line, obs, orc):
             fed[c] = b""
             queue[c] = []
             for o in op[3:]:
-                if o.startswith("id="):
-                    ann[c] = W.untok(o[3:])
+                if o.startswith("id=") and W.untok(o[3:]):
+                    ann[c] = W.untok(o[3:])     # an Identity property that is present but empty announces nothing
         elif op[0] == "feed":
             c = op[1]
             fed[c] += W.untok(op[2])
